@@ -91,7 +91,16 @@ DEFAULT_SHAPES = {
 }
 
 
+_shape_cache = {}
+
+
 def shape_of(meth):
+    if meth not in _shape_cache:          # the source is read once per process (a run checks one tree)
+        _shape_cache[meth] = _shape_of(meth)
+    return _shape_cache[meth]
+
+
+def _shape_of(meth):
     """the shape the spec functions block_name / region_name / var_name stand for: read from the current source when both
     branches of the method build the same analysable shape (literals around one str(kind) and one str(idx), kind first),
     the pinned tree's shape otherwise (the contract then fails, as it should: the generator no longer builds names that way)"""
